@@ -2,6 +2,7 @@ package spine
 
 import (
 	"fmt"
+	"sync"
 
 	"github.com/enbility/spine-go/api"
 	"github.com/enbility/spine-go/model"
@@ -14,6 +15,10 @@ type Feature struct {
 	description *model.DescriptionType
 	role        model.RoleType
 	operations  map[model.FunctionType]api.OperationsInterface
+
+	// guards description and operations: both can be set while discovery
+	// data is produced from them or a message is checked against them
+	muxDescription sync.Mutex
 }
 
 var _ api.FeatureInterface = (*Feature)(nil)
@@ -40,20 +45,39 @@ func (r *Feature) Role() model.RoleType {
 	return r.role
 }
 
+// returns a copy of the operations, as the map itself can be changed at any time
 func (r *Feature) Operations() map[model.FunctionType]api.OperationsInterface {
-	return r.operations
+	r.muxDescription.Lock()
+	defer r.muxDescription.Unlock()
+
+	if r.operations == nil {
+		return nil
+	}
+
+	res := make(map[model.FunctionType]api.OperationsInterface, len(r.operations))
+	for function, operations := range r.operations {
+		res[function] = operations
+	}
+
+	return res
 }
 
 func (r *Feature) Description() *model.DescriptionType {
+	r.muxDescription.Lock()
+	defer r.muxDescription.Unlock()
+
 	return r.description
 }
 
 func (r *Feature) SetDescription(d *model.DescriptionType) {
+	r.muxDescription.Lock()
+	defer r.muxDescription.Unlock()
+
 	r.description = d
 }
 
 func (r *Feature) SetDescriptionString(s string) {
-	r.description = util.Ptr(model.DescriptionType(s))
+	r.SetDescription(util.Ptr(model.DescriptionType(s)))
 }
 
 func (r *Feature) String() string {
